@@ -535,6 +535,31 @@ func (p *Prog) keepRewriteVersionObligations() []Ob {
 		var bad []string
 		seen := map[ssa.Value]bool{}
 		var leaf func(v ssa.Value, d int)
+		// a call result: the file's own Version(), or a small helper of the module whose success
+		// returns hand one on
+		fromCall := func(c *ssa.Call, idx int, d int) {
+			nm := calleeName(c.Common())
+			if nm == "(*"+pkgMessage+".Writer).Version" || nm == "(*"+pkgMessage+".Reader).Version" {
+				return
+			}
+			if g := c.Common().StaticCallee(); g != nil && inModule(g) && g.Blocks != nil && recvNamed(g) != r.Impl && d < 8 {
+				ea := p.ErrAtomsCached()
+				n := 0
+				for _, rt := range returnsOf(g) {
+					if ea.isFailureReturn(g, rt) {
+						continue
+					}
+					if rv := returnOperand(rt, idx); rv != nil {
+						n++
+						leaf(rv, d+1)
+					}
+				}
+				if n > 0 {
+					return
+				}
+			}
+			bad = append(bad, fmt.Sprintf("%s: the version compared against V1/V2 comes from %s, not from the file's header", p.at(c), nm))
+		}
 		leaf = func(v ssa.Value, d int) {
 			if seen[v] || d > 10 {
 				return
@@ -554,12 +579,14 @@ func (p *Prog) keepRewriteVersionObligations() []Ob {
 					return
 				}
 				bad = append(bad, fmt.Sprintf("%s: the version compared against V1/V2 is read from %s, not detected from the file", p.posStr(x.Pos()), describeLoad(p, x)))
-			case *ssa.Call:
-				nm := calleeName(x.Common())
-				if nm == "(*"+pkgMessage+".Writer).Version" || nm == "(*"+pkgMessage+".Reader).Version" {
+			case *ssa.Extract:
+				if c, ok := x.Tuple.(*ssa.Call); ok {
+					fromCall(c, x.Index, d)
 					return
 				}
-				bad = append(bad, fmt.Sprintf("%s: the version compared against V1/V2 comes from %s, not from the file's header", p.at(x), nm))
+				bad = append(bad, fmt.Sprintf("%s: the version compared against V1/V2 has an unrecognised source", p.posStr(v.Pos())))
+			case *ssa.Call:
+				fromCall(x, 0, d)
 			case *ssa.Const:
 				// zero value of the local before assignment
 			default:
